@@ -108,8 +108,8 @@ struct InputPic { std::vector<uint8_t> mem; EbSvtIOFormat io; };
 static void build_input(Instance &I, int idx, InputPic &ip, uint8_t *reuse) {
     const Content &c = I.content; std::vector<uint16_t> Y, U, V; gen_frame(c, idx, Y, U, V);
     int W = c.w, H = c.h, cw = W / 2, ch = H / 2; int bps = c.bd > 8 ? 2 : 1;
-    int ys = W + c.stride_pad, cs = cw + c.stride_pad_c; int extra_rows = c.extra_rows;
-    size_t ylen = (size_t)ys * (H + extra_rows) * bps, clen = (size_t)cs * (ch + extra_rows) * bps; size_t total = ylen + 2 * clen;
+    int ys = W + c.stride_pad, cs = cw + c.stride_pad_c, crs = cw + c.stride_pad_cr; int extra_rows = c.extra_rows;
+    size_t ylen = (size_t)ys * (H + extra_rows) * bps, clen = (size_t)cs * (ch + extra_rows) * bps, crlen = (size_t)crs * (ch + extra_rows) * bps; size_t total = ylen + clen + crlen;
     uint8_t *base;
     if (reuse) base = reuse; else { ip.mem.assign(total, 0); base = ip.mem.data(); }
     Rng g(c.garbage_seed * 7919 + (uint64_t)idx);
@@ -117,12 +117,12 @@ static void build_input(Instance &I, int idx, InputPic &ip, uint8_t *reuse) {
     auto put = [&](uint8_t *dst, const std::vector<uint16_t> &src, int w, int h, int stride) {
         for (int y = 0; y < h; y++) for (int x = 0; x < w; x++) { uint16_t v = src[(size_t)y * w + x]; if (bps == 1) dst[(size_t)y * stride + x] = (uint8_t)v; else { dst[((size_t)y * stride + x) * 2] = (uint8_t)(v & 0xff); dst[((size_t)y * stride + x) * 2 + 1] = (uint8_t)(v >> 8); } }
     };
-    put(base, Y, W, H, ys); put(base + ylen, U, cw, ch, cs); put(base + ylen + clen, V, cw, ch, cs);
+    put(base, Y, W, H, ys); put(base + ylen, U, cw, ch, cs); put(base + ylen + clen, V, cw, ch, crs);
     memset(&ip.io, 0, sizeof ip.io);
-    ip.io.luma = base; ip.io.cb = base + ylen; ip.io.cr = base + ylen + clen; ip.io.y_stride = ys; ip.io.cb_stride = cs; ip.io.cr_stride = cs;
+    ip.io.luma = base; ip.io.cb = base + ylen; ip.io.cr = base + ylen + clen; ip.io.y_stride = ys; ip.io.cb_stride = cs; ip.io.cr_stride = crs;
     ip.io.width = W; ip.io.height = H; ip.io.color_fmt = EB_YUV420; ip.io.bit_depth = c.bd > 8 ? EB_TEN_BIT : EB_EIGHT_BIT;
 }
-static size_t input_total(const Content &c) { int bps = c.bd > 8 ? 2 : 1; return ((size_t)(c.w + c.stride_pad) * (c.h + c.extra_rows) + 2 * (size_t)(c.w / 2 + c.stride_pad_c) * (c.h / 2 + c.extra_rows)) * bps; }
+static size_t input_total(const Content &c) { int bps = c.bd > 8 ? 2 : 1; return ((size_t)(c.w + c.stride_pad) * (c.h + c.extra_rows) + (size_t)(c.w / 2 + c.stride_pad_c) * (c.h / 2 + c.extra_rows) + (size_t)(c.w / 2 + c.stride_pad_cr) * (c.h / 2 + c.extra_rows)) * bps; }
 
 static void record_packet(Instance &I, EbBufferHeaderType *p) {
     Packet k; k.session = I.session; k.size = p->n_filled_len; k.pts = p->pts; k.dts = p->dts; k.flags = p->flags; k.pic_type = p->pic_type; k.qp = p->qp;
